@@ -34,6 +34,8 @@ func main() {
 		err = l1Conc(os.Args[2:])
 	case "l1-nonce":
 		err = l1Nonce(os.Args[2:])
+	case "adm-run":
+		err = admRun(os.Args[2:])
 	case "crash-run":
 		err = crashRun(os.Args[2:])
 	case "reload-pilot":
@@ -645,5 +647,64 @@ func crashRun(args []string) error {
 		}
 	}
 	fmt.Printf("{\"runs\":%d,\"errors\":%d}\n", len(jobs), nerr)
+	return nil
+}
+
+
+// adm-run: ingress admission on the production wiring: arrival sequences (rate limiters), size limits, fan-out.
+func admRun(args []string) error {
+	fs := flag.NewFlagSet("adm-run", flag.ExitOnError)
+	in := fs.String("arrivals", "", "arrival sequences (ndjson: {\"name\":..,\"arr\":[...]})")
+	out := fs.String("out", "adm-trace", "trace output")
+	scratch := fs.String("scratch", "", "scratch dir")
+	_ = fs.Parse(args)
+	sd := scratchDir(*scratch)
+	if *scratch == "" {
+		defer os.RemoveAll(sd)
+	}
+	f, err := os.Create(*out)
+	if err != nil {
+		return err
+	}
+	defer f.Close()
+	events, traces := 0, 0
+	if *in != "" {
+		inf, err := os.Open(*in)
+		if err != nil {
+			return err
+		}
+		defer inf.Close()
+		sc := bufio.NewScanner(inf)
+		sc.Buffer(make([]byte, 1<<20), 1<<26)
+		for sc.Scan() {
+			if len(sc.Bytes()) == 0 {
+				continue
+			}
+			var s struct {
+				Name string       `json:"name"`
+				Arr  []l1.Arrival `json:"arr"`
+			}
+			if err := json.Unmarshal(sc.Bytes(), &s); err != nil {
+				return err
+			}
+			n, err := l1.RunRate(f, sd, s.Name, s.Arr)
+			if err != nil {
+				return err
+			}
+			events += n
+			traces++
+		}
+	}
+	n, err := l1.RunSizes(f, sd, "sizes")
+	if err != nil {
+		return err
+	}
+	events += n
+	n, err = l1.RunFanout(f, sd, "fanout")
+	if err != nil {
+		return err
+	}
+	events += n
+	fmt.Printf("{\"traces\":%d,\"events\":%d}\n", traces+2, events)
 	return nil
 }
